@@ -346,3 +346,100 @@ theorem C08_metric_row_shape (r : MRow) (fs : List JBytes) (h : allSome (r.vals.
   by_cases he : r.scope.isEmpty
   · simp only [he, if_true, List.append_nil, JV.renderMembers, JV.render, List.append_assoc]
   · simp only [he, Bool.false_eq_true, if_false, List.cons_append, List.nil_append, JV.renderMembers, JV.render, List.append_assoc]
+
+/-! ## The rendered trees are JSON texts (RFC 8259 grammar without insignificant white space) -/
+
+mutual
+  /-- JSON values over a class of leaf tokens (strings, numbers, literals, agent fragments) -/
+  inductive IsJson (leaf : JBytes → Prop) : JBytes → Prop
+    | tok {t : JBytes} : leaf t → IsJson leaf t
+    | emptyArr : IsJson leaf (bs "[" ++ [] ++ bs "]")
+    | arr {b : JBytes} : IsElems leaf b → IsJson leaf (bs "[" ++ b ++ bs "]")
+    | emptyObj : IsJson leaf (bs "{" ++ [] ++ bs "}")
+    | obj {b : JBytes} : IsMembers leaf b → IsJson leaf (bs "{" ++ b ++ bs "}")
+  /-- value (',' value)* -/
+  inductive IsElems (leaf : JBytes → Prop) : JBytes → Prop
+    | one {v : JBytes} : IsJson leaf v → IsElems leaf v
+    | cons {v rest : JBytes} : IsJson leaf v → IsElems leaf rest → IsElems leaf (v ++ bs "," ++ rest)
+  /-- string ':' value (',' string ':' value)* -/
+  inductive IsMembers (leaf : JBytes → Prop) : JBytes → Prop
+    | one {k v : JBytes} : IsStringToken k → IsJson leaf v → IsMembers leaf (k ++ bs ":" ++ v)
+    | cons {k v rest : JBytes} : IsStringToken k → IsJson leaf v → IsMembers leaf rest →
+        IsMembers leaf (k ++ bs ":" ++ v ++ bs "," ++ rest)
+end
+
+mutual
+  /-- every leaf of the tree is an acceptable token and every key a string token -/
+  def JV.WellFormed (leaf : JBytes → Prop) : JV → Prop
+    | .tok t => leaf t
+    | .arr items => JV.WellFormedList leaf items
+    | .obj ms => JV.WellFormedMembers leaf ms
+  def JV.WellFormedList (leaf : JBytes → Prop) : List JV → Prop
+    | [] => True
+    | x :: xs => x.WellFormed leaf ∧ JV.WellFormedList leaf xs
+  def JV.WellFormedMembers (leaf : JBytes → Prop) : List (JBytes × JV) → Prop
+    | [] => True
+    | (k, v) :: ms => IsStringToken k ∧ v.WellFormed leaf ∧ JV.WellFormedMembers leaf ms
+end
+
+mutual
+  theorem render_isJson (leaf : JBytes → Prop) : ∀ (v : JV), v.WellFormed leaf → IsJson leaf v.render
+    | .tok t, h => IsJson.tok h
+    | .arr items, h => by
+        cases items with
+        | nil => simpa [JV.render, JV.renderList] using (IsJson.emptyArr (leaf := leaf))
+        | cons x xs =>
+          simp only [JV.render]
+          exact IsJson.arr (renderList_isElems leaf (x :: xs) (by simp) h)
+    | .obj ms, h => by
+        cases ms with
+        | nil => simpa [JV.render, JV.renderMembers] using (IsJson.emptyObj (leaf := leaf))
+        | cons m ms' =>
+          simp only [JV.render]
+          exact IsJson.obj (renderMembers_isMembers leaf (m :: ms') (by simp) h)
+  theorem renderList_isElems (leaf : JBytes → Prop) : ∀ (l : List JV), l ≠ [] → JV.WellFormedList leaf l →
+      IsElems leaf (JV.renderList l)
+    | [], h, _ => absurd rfl h
+    | [x], _, hw => by
+        simp only [JV.renderList]
+        exact IsElems.one (render_isJson leaf x hw.1)
+    | x :: y :: xs, _, hw => by
+        simp only [JV.renderList]
+        exact IsElems.cons (render_isJson leaf x hw.1) (renderList_isElems leaf (y :: xs) (by simp) hw.2)
+  theorem renderMembers_isMembers (leaf : JBytes → Prop) : ∀ (l : List (JBytes × JV)), l ≠ [] →
+      JV.WellFormedMembers leaf l → IsMembers leaf (JV.renderMembers l)
+    | [], h, _ => absurd rfl h
+    | [(k, v)], _, hw => by
+        simp only [JV.renderMembers]
+        exact IsMembers.one hw.1 (render_isJson leaf v hw.2.1)
+    | (k, v) :: m :: ms, _, hw => by
+        simp only [JV.renderMembers]
+        exact IsMembers.cons hw.1 (render_isJson leaf v hw.2.1) (renderMembers_isMembers leaf (m :: ms) (by simp) hw.2.2)
+end
+
+/-- the two literal keys of the event payload are string tokens.  Lean's kernel does not reduce `String.toUTF8` on
+literals, so this is checked by evaluation (`#guard`), not by proof, and enters the theorem below as a hypothesis. -/
+def eventKeysOk : Bool :=
+  bs "\"reservoir_size\"" == 0x22 :: bs "reservoir_size" ++ [0x22] && strBodyOk (bs "reservoir_size") &&
+  bs "\"events_seen\"" == 0x22 :: bs "events_seen" ++ [0x22] && strBodyOk (bs "events_seen")
+#guard eventKeysOk
+
+theorem wellFormedList_toks (leaf : JBytes → Prop) (l : List JBytes) (h : ∀ e ∈ l, leaf e) :
+    JV.WellFormedList leaf (l.map JV.tok) := by
+  induction l with
+  | nil => trivial
+  | cons x xs ih =>
+    exact ⟨h x (by simp), ih (fun e he => h e (by simp [he]))⟩
+
+/-- **C08 (an event payload is a JSON text).**  For every run id (any bytes), every capacity and counter, and every list
+of agent fragments that are JSON values themselves, the bytes `analyticsEvents.CollectorJSON` produces are generated by the
+JSON grammar: brackets balance, separators sit between elements only, keys are string tokens. -/
+theorem C08_events_payload_is_json (leaf : JBytes → Prop) (hs : ∀ t, IsStringToken t → leaf t)
+    (hn : ∀ n : Nat, leaf (bs (toString n)))
+    (hk1 : IsStringToken (bs "\"reservoir_size\"")) (hk2 : IsStringToken (bs "\"events_seen\""))
+    (runId : JBytes) (cap seen : Nat) (events : List JBytes)
+    (he : ∀ e ∈ events, leaf e) : IsJson leaf (eventsPayload runId cap seen events) := by
+  rw [C08_events_payload_shape]
+  apply render_isJson
+  refine ⟨hs _ (C08_appendString_valid runId), ⟨hk1, hn cap, hk2, hn seen, trivial⟩, ?_, trivial⟩
+  exact wellFormedList_toks leaf events he
